@@ -1,5 +1,5 @@
 (** Correspondence check for account resolution (C05-C08) and the stored lists (C12). *)
-From SplVerif Require Export Lib.Base Corr.Common Lib.Sha256 Lib.Pda Tlv.Model Resolution.Seeds Resolution.Account MetaList.Model.
+From SplVerif Require Export Lib.Base Corr.Common Lib.Sha256 Lib.Pda Tlv.Model Resolution.Seeds Resolution.Account MetaList.Model MetaList.Stored.
 Local Open Scope N_scope.
 
 Definition meta_res_eqb (a b : meta) : bool := meta_eqb a b.
@@ -46,6 +46,12 @@ Inductive case :=
 | CCpi (cfgs : list extra) (ix : list byte) (pid : key) (metas : list meta) (infos pool : list info)
        (r : res (list meta * list key))
 | CCheck (cfgs : list extra) (ix : list byte) (pid : key) (accounts : list info) (r : res unit)
+(* the same helpers from the raw account bytes (TLV + list view read by the model too) *)
+| COffchainD (data : list byte) (ix : list byte) (pid : key) (metas : list meta)
+             (pool : list (key * option (list byte))) (r : res (list meta))
+| CCpiD (data : list byte) (ix : list byte) (pid : key) (metas : list meta) (infos pool : list info)
+        (r : res (list meta * list key))
+| CCheckD (data : list byte) (ix : list byte) (pid : key) (accounts : list info) (r : res unit)
 | CSizeOf (k : N) (r : res N)
 | CMl (init : list byte) (its : list mitem) (final : list byte).
 
@@ -61,6 +67,12 @@ Definition check (c : case) : bool :=
       agree (fun a b => list_eqb meta_res_eqb (fst a) (fst b) && list_eqb list_byte_eqb (snd a) (snd b))
             (let? x := cpi_loop find_pda pool cfgs ix pid infos metas in Ok (fst x, map i_key (snd x))) r
   | CCheck cfgs ix pid accounts r => agree (fun _ _ => true) (check_accounts find_pda cfgs ix pid accounts) r
+  | COffchainD data ix pid metas pool r =>
+      agree (list_eqb meta_res_eqb) (add_offchain_data find_pda (pool_fetch pool) data (mtag 0) ix pid metas) r
+  | CCpiD data ix pid metas infos pool r =>
+      agree (fun a b => list_eqb meta_res_eqb (fst a) (fst b) && list_eqb list_byte_eqb (snd a) (snd b))
+            (let? x := add_cpi_data find_pda pool data (mtag 0) ix pid infos metas in Ok (fst x, map i_key (snd x))) r
+  | CCheckD data ix pid accounts r => agree (fun _ _ => true) (check_account_infos find_pda data (mtag 0) ix pid accounts) r
   | CSizeOf k r => agree N.eqb (ml_size_of k) r
   | CMl init its final => let '(b, ok) := run_mitems init its in ok && list_byte_eqb b final
   end.
